@@ -200,6 +200,11 @@ func chainMutations(purpose string) []chainMut {
 	// a certificate without a subject name (empty sequence, critical subjectAltName): nothing in the specification looks at the
 	// content of a name, only at whether issuer and subject fields agree
 	add("empty-subject", true, "any", func(s []*CertSpec, p int) { s[p].EmptySubject = true })
+	// the same extensions in another order: nothing in the specification depends on where an extension sits
+	for _, o := range []string{"reversed", "rotated", "eku-first", "ku-first", "bc-first"} {
+		o := o
+		add("ext-order-"+o, true, "any", func(s []*CertSpec, p int) { s[p].ExtOrder = o })
+	}
 	add("root-not-self-issued", false, "root", func(s []*CertSpec, p int) { s[p].IssuerCN = "higher-root" })
 	return m
 }
